@@ -178,7 +178,14 @@ def gen_dag(rng, cyclic=False, with_pull=True, shared_pull=False, late_start=Tru
                         seen_buf = True
                     chain2.append(a)
                 chain = chain2
-            comps[k]["inputs"].append({"src": [j, rng.randrange(comps[j]["nout"])], "chain": chain})
+            so = rng.randrange(comps[j]["nout"])
+            if src_is_p and kinds[k] == "T" and rng.random() < 0.35:
+                # the same output of a pull-based component read twice by one consumer, the first link delayed by at
+                # most the consumer's smallest step (so that the requests reaching the component stay monotone)
+                d = rng.choice([1, min(comps[k]["steps"]) // 2 or 1, min(comps[k]["steps"])])
+                comps[k]["inputs"].append({"src": [j, so], "chain": [["fixed", d]] + ([["pass"]] if rng.random() < 0.3 else [])})
+                chain = [a for a in chain if a[0] == "pass"]
+            comps[k]["inputs"].append({"src": [j, so], "chain": chain})
     maxstep = max(max(c["steps"]) for c in comps if c["kind"] == "T")
     end = t0 + rng.choice([0, 1, 2, 3, 5, 8]) * maxstep + rng.choice([0, 0, 1, unit // 2, -1])
     return {"comps": comps, "end": end}
